@@ -16,6 +16,13 @@ use std::time::Instant;
 
 pub const VERIF_ROOT: &str = "/verif";
 
+/// Where evidence and replay files go: `/verif`, or - for the mutation campaign only, which runs
+/// scratch copies of the checks against scratch copies of the repository in parallel -
+/// `VERIF_OUT_ROOT`. Known findings are always read from `/verif`.
+pub fn out_root() -> String {
+    std::env::var("VERIF_OUT_ROOT").unwrap_or_else(|_| VERIF_ROOT.to_string())
+}
+
 #[derive(Clone, Debug, Serialize, Deserialize)]
 pub struct KnownFinding {
     pub property: String,
@@ -430,7 +437,7 @@ pub fn run_property(
 
     let mut violation_lines = Vec::new();
     let mut n_classes = 0usize;
-    std::fs::create_dir_all(Path::new(VERIF_ROOT).join("replays")).ok();
+    std::fs::create_dir_all(Path::new(&out_root()).join("replays")).ok();
     for ((oracle, _ck), list) in &classes {
         n_classes += 1;
         let first = list.iter().min_by_key(|f| (f.family_idx, f.index)).unwrap();
@@ -475,7 +482,7 @@ pub fn run_property(
             batch_seed: Some(opts.base_seed),
         };
         let h = crate::hash_str(&format!("{}{}", rf.oracle, rf.key));
-        let path = Path::new(VERIF_ROOT).join("replays").join(format!("{}-batch{}-{:08x}.json", v.property, opts.base_seed, h as u32));
+        let path = Path::new(&out_root()).join("replays").join(format!("{}-batch{}-{:08x}.json", v.property, opts.base_seed, h as u32));
         std::fs::write(&path, serde_json::to_string(&rf).unwrap()).ok();
         println!("violation (batch oracle): oracle={} key={} family={}\n  {}", v.oracle, v.key, fam.family(), v.message);
         violation_lines.push(format!("VIOLATION property={} replay={}", property, path.display()));
@@ -526,7 +533,7 @@ pub fn run_property(
         "wall_s": wall,
         "violations": n_classes,
     });
-    let evdir = Path::new(VERIF_ROOT).join("evidence");
+    let evdir = Path::new(&out_root()).join("evidence");
     std::fs::create_dir_all(&evdir).ok();
     let mut evidence = evidence;
     let part_name = std::env::var("VERIF_EVIDENCE_PART").ok();
@@ -676,7 +683,7 @@ fn make_replay(
         batch_seed: None,
     };
     let h = crate::hash_str(&format!("{}{}", rf.oracle, rf.key));
-    let path = Path::new(VERIF_ROOT)
+    let path = Path::new(&out_root())
         .join("replays")
         .join(format!("{}-{}-{:08x}.json", v.property, seed, h as u32));
     std::fs::write(&path, serde_json::to_string(&rf).unwrap()).ok();
